@@ -19,7 +19,7 @@ ArgSets(hh) ==
     [] hh \in {"pen_lower", "pen_raise"} -> T2({0, 1, 750, 65535}, Opts \cup {2, 7})
     [] hh = "servo_timeout" -> T2({0, 1, 60000}, Opts)
     [] hh = "motors_enable_both" -> T1(Res \cup {-5, 750})
-    [] hh = "motors_enable" -> {<<r1, r2, q1, q2>> : r1 \in Res, r2 \in Res, q1 \in 0..5, q2 \in 0..5}
+    [] hh = "motors_enable" -> {<<r1, r2, q1, q2>> \in {<<r1, r2, q1, q2>> : r1 \in Res, r2 \in Res, q1 \in 0..5, q2 \in 0..5} : q1 = q2 \/ q1 * q2 = 0}   \* one global resolution: QE never reports two different non-zero modes
     [] hh \in {"pb_config_out", "pb_set"} -> T2(0..7, {0, 1})
     [] hh = "dio_b_config" -> T3({0, 1, 3, 7}, {0, 1}, {0, 1})
     [] hh = "dio_b_read" -> T1(0..7)
@@ -46,7 +46,8 @@ NothingElse ==      \* one line per documented command; helpers with two command
   /\ (h \in {"pb_config_out", "dio_b_config"} => Len(lines) = 2)
   /\ (h \in {"var_write_int32", "var_read_int32"} => Len(lines) = 4)
   /\ (h = "motors_enable" => Len(lines) \in 1..4)
-  /\ (h \notin {"pb_config_out", "dio_b_config", "var_write_int32", "var_read_int32", "motors_enable", "timed_pause", "lowlevel_move"} => Len(lines) = 1)
+  /\ (h = "query_motors_pins" => Len(lines) = 5)
+  /\ (h \notin {"pb_config_out", "dio_b_config", "var_write_int32", "var_read_int32", "motors_enable", "timed_pause", "lowlevel_move", "query_motors_pins"} => Len(lines) = 1)
 FinalEMClamped == (h = "motors_enable") =>
   lines[Len(lines)] = "EM," \o S(Clamp05(a[1])) \o "," \o S(Clamp05(a[2]))
 =============================================================================
